@@ -282,7 +282,7 @@ fn rel_of(owner: &Name<Bytes>, apex_n: &Name<Bytes>) -> String {
 #[derive(Clone, Debug)]
 enum Ev {
     Acquire(u32), Query(u32, Nm, u16), Walk(u32), Release(u32),
-    WAcquire, WOpen, Update(Nm, u16, u32), Remove(Nm, u16), Touch(Nm), RemoveAll, RemoveAllAt(Nm),
+    WAcquire, WQueue, WTake, WOpen, Update(Nm, u16, u32), Remove(Nm, u16), Touch(Nm), RemoveAll, RemoveAllAt(Nm),
     CnameAt(Nm, u32), Regular(Nm), Commit, Drop,
 }
 impl Ev {
@@ -290,7 +290,7 @@ impl Ev {
         let f = |n: &Nm| n.flat_id().map_or(n.show(), |i| i.to_string());
         match self {
             Ev::Acquire(r) => format!("A:{}", r), Ev::Query(r, n, t) => format!("Q:{}:{}:{}", r, f(n), t), Ev::Walk(r) => format!("W:{}", r),
-            Ev::Release(r) => format!("R:{}", r), Ev::WAcquire => "wa".into(), Ev::WOpen => "wo".into(),
+            Ev::Release(r) => format!("R:{}", r), Ev::WAcquire | Ev::WQueue | Ev::WTake => "wa".into(), Ev::WOpen => "wo".into(),
             Ev::Update(n, t, rr) => format!("u:{}:{}:{}", f(n), t, rr), Ev::Remove(n, t) => format!("r:{}:{}", f(n), t), Ev::Touch(n) => format!("t:{}", f(n)),
             Ev::RemoveAll => "ra".into(), Ev::RemoveAllAt(n) => format!("rn:{}", f(n)), Ev::CnameAt(n, id) => format!("cn:{}:{}", f(n), id),
             Ev::Regular(n) => format!("rg:{}", f(n)), Ev::Commit => "c".into(), Ev::Drop => "d".into(),
@@ -342,6 +342,8 @@ struct Sys {
     types: Vec<u16>,
     readers: BTreeMap<u32, Held>,
     writer: Option<Box<dyn WritableZone>>,
+    /// a second `write().await` that was requested while `writer` existed and is kept alive
+    queued: Option<tokio::task::JoinHandle<Box<dyn WritableZone>>>,
     root: Option<Box<dyn WritableZoneNode>>,
     /// nodes present in the tree -> sequence number of the step that created them
     nodes: BTreeMap<Nm, u64>,
@@ -371,7 +373,7 @@ impl Sys {
                 Init::Cname(n, id) => { b.insert_cname(&n.abs(), mk_cname(*id)).unwrap(); content.cname.insert(n.clone(), *id); for p in n.prefixes() { nodes.insert(p, 0); } }
             }
         }
-        Sys { rt, zone: b.build(), universe, types, readers: BTreeMap::new(), writer: None, root: None, nodes, session_created: BTreeSet::new(),
+        Sys { rt, zone: b.build(), universe, types, readers: BTreeMap::new(), writer: None, queued: None, root: None, nodes, session_created: BTreeSet::new(),
               ghosts: BTreeSet::new(), seq: 0, committed: content.clone(), pending: content, pre_session: None }
     }
 
@@ -491,6 +493,43 @@ impl Sys {
                     self.writer = got;
                 }
             }
+            Ev::WQueue => {
+                // request the write lock in a task and keep the request alive: the
+                // future is polled (so it has done everything it does before waiting
+                // for the lock) and completes only after the current writer is dropped
+                if self.writer.is_some() && self.queued.is_none() {
+                    let z = self.zone.clone();
+                    let h = self.rt.spawn(async move { z.write().await });
+                    self.rt.block_on(async { tokio::task::yield_now().await; tokio::task::yield_now().await; });
+                    if h.is_finished() {
+                        obs = Some("granted".into());
+                        fails.push(Fail { class: "second_writer_granted", detail: "queued write().await completed while another WritableZone is alive".into() });
+                        let _ = self.rt.block_on(h);
+                    } else {
+                        obs = Some("pending".into());
+                        self.queued = Some(h);
+                    }
+                } else { obs = Some("pending".into()); }
+            }
+            Ev::WTake => {
+                if let (None, Some(h)) = (&self.writer, self.queued.take()) {
+                    let got = self.rt.block_on(async move { tokio::time::timeout(Duration::from_millis(50), h).await });
+                    match got {
+                        Ok(Ok(w)) => {
+                            obs = Some("granted".into());
+                            let rd = self.zone.read();
+                            self.pre_session = Some(self.snapshot(rd.as_ref()));
+                            self.pending = self.committed.clone();
+                            self.session_created.clear();
+                            self.writer = Some(w);
+                        }
+                        _ => {
+                            obs = Some("pending".into());
+                            fails.push(Fail { class: "writer_lock_stuck", detail: "queued write().await still pending after the writer was dropped".into() });
+                        }
+                    }
+                } else { obs = Some("granted".into()); }
+            }
             Ev::WOpen => { if let Some(w) = &self.writer { self.root = Some(self.rt.block_on(w.open(false)).unwrap()); } }
             Ev::Commit => {
                 if let Some(w) = self.writer.as_mut() {
@@ -551,7 +590,7 @@ impl Sys {
                 self.check_fresh(fails, "abort_visible_other", "after drop");
             }
             Ev::Commit => self.check_fresh(fails, "commit_not_atomic", "after commit"),
-            d if d.is_data() || matches!(d, Ev::WOpen | Ev::WAcquire) => self.check_fresh(fails, "commit_not_atomic", &format!("before commit, after {}", d.word())),
+            d if d.is_data() || matches!(d, Ev::WOpen | Ev::WAcquire | Ev::WQueue | Ev::WTake) => self.check_fresh(fails, "commit_not_atomic", &format!("before commit, after {}", d.word())),
             _ => {}
         }
     }
@@ -613,7 +652,7 @@ fn gen_trace(r: &mut Rng, names: &[Nm], max_len: usize, create_ok: bool, existin
     let types = [T_A, T_TXT, T_AAAA, T_SOA];
     let mut evs = vec![];
     let mut held: Vec<u32> = vec![];
-    let mut writer = false; let mut open = false;
+    let mut writer = false; let mut open = false; let mut queued = false;
     let mut val = 100u32;
     let n_ev = r.range(4, max_len as u64) as usize;
     // names a data operation may address
@@ -624,7 +663,7 @@ fn gen_trace(r: &mut Rng, names: &[Nm], max_len: usize, create_ok: bool, existin
             3 => { if !held.is_empty() && r.chance(1, 2) { let i = r.below(held.len() as u64) as usize; let id = held.remove(i); evs.push(Ev::Release(id)); } }
             4..=7 => { if !held.is_empty() { let id = *r.pick(&held); let n = r.pick(names).clone(); let t = if n.0.is_empty() { *r.pick(&types) } else { *r.pick(&types[..3]) }; evs.push(Ev::Query(id, n, t)); } }
             8 => { if !held.is_empty() { let id = *r.pick(&held); evs.push(Ev::Walk(id)); } }
-            9 => { if !writer { writer = true; open = false; evs.push(Ev::WAcquire); } else if r.chance(1, 3) { evs.push(Ev::WAcquire); } }
+            9 => { if !writer { writer = true; open = false; evs.push(Ev::WAcquire); } else if r.chance(1, 3) { evs.push(Ev::WAcquire); } else if !queued && r.chance(1, 2) { queued = true; evs.push(Ev::WQueue); } }
             10 => { if writer && (!open || r.chance(1, 4)) { open = true; evs.push(Ev::WOpen); } }
             11..=16 => {
                 if !writer { writer = true; evs.push(Ev::WAcquire); open = false; }
@@ -644,10 +683,15 @@ fn gen_trace(r: &mut Rng, names: &[Nm], max_len: usize, create_ok: bool, existin
                 evs.push(e);
             }
             17 | 18 => { if writer { open = false; evs.push(Ev::Commit); } }
-            _ => { if writer { writer = false; open = false; evs.push(Ev::Drop); } }
+            _ => { if writer { writer = false; open = false; evs.push(Ev::Drop); if queued { queued = false; writer = true; evs.push(Ev::WTake); } } }
         }
     }
-    if writer && r.chance(2, 3) { evs.push(if r.chance(1, 2) { Ev::Commit } else { Ev::Drop }); }
+    if writer && r.chance(2, 3) {
+        if r.chance(1, 2) { evs.push(Ev::Commit); } else {
+            evs.push(Ev::Drop);
+            if queued { evs.push(Ev::WTake); evs.push(Ev::WOpen); val += 1; evs.push(Ev::Update(r.pick(names).clone(), T_A, val)); }
+        }
+    }
     // a final look by everyone still holding a reader
     for id in held { let n = r.pick(names).clone(); evs.push(Ev::Query(id, n, T_A)); evs.push(Ev::Walk(id)); }
     evs
@@ -802,6 +846,11 @@ fn main() {
             (vec![soa.clone(), www.clone()], vec![Ev::Acquire(0), Ev::WAcquire, Ev::WOpen, Ev::Update(Nm::flat(2), T_TXT, 31), Ev::Remove(Nm::flat(2), T_TXT), Ev::Update(Nm::flat(2), T_TXT, 32), Ev::Drop, Ev::Acquire(1), Ev::Query(1, Nm::flat(2), T_TXT), Ev::Walk(1)]),
             // wildcard created by an aborted writer
             (vec![soa.clone(), www.clone()], vec![Ev::Acquire(0), Ev::Query(0, Nm::flat(4), T_A), Ev::WAcquire, Ev::WOpen, Ev::Update(Nm::flat(1), T_A, 41), Ev::Drop, Ev::Acquire(1), Ev::Query(1, Nm::flat(4), T_A)]),
+            // a second writer requested while the first is active; the first commits and goes away;
+            // the second must then write at the version after the committed one
+            (vec![soa.clone(), www.clone()], vec![Ev::Acquire(0), Ev::WAcquire, Ev::WQueue, Ev::WOpen, Ev::Update(Nm::flat(2), T_A, 21), Ev::Commit, Ev::Acquire(1), Ev::Drop, Ev::WTake, Ev::WOpen,
+                Ev::Update(Nm::flat(2), T_A, 22), Ev::Update(Nm::flat(3), T_TXT, 23), Ev::Query(1, Nm::flat(2), T_A), Ev::Query(1, Nm::flat(3), T_TXT), Ev::Acquire(2), Ev::Query(2, Nm::flat(2), T_A), Ev::Drop,
+                Ev::Acquire(3), Ev::Query(3, Nm::flat(2), T_A), Ev::Walk(3), Ev::Walk(0)]),
             // cname set and rolled back
             (vec![soa.clone(), www.clone()], vec![Ev::Acquire(0), Ev::WAcquire, Ev::WOpen, Ev::CnameAt(Nm::flat(2), 51), Ev::Query(0, Nm::flat(2), T_A), Ev::Drop, Ev::Acquire(1), Ev::Query(1, Nm::flat(2), T_A), Ev::Walk(1)]),
         ];
